@@ -10,7 +10,8 @@ RULE = ("Engine K: a continuous conveyor (length, item length, speed from a grid
         "accumulating 0/1) between a scripted producer (regular / bursts of zeros / irregular real waits between admission "
         "requests; puts at the grant instant or, in a quarter of the cases, after a loading time) and a scripted consumer (always waiting = free flow, late = one long stall, "
         "alternating, irregular; gets at the grant instant, or - a quarter of the cases - withdraws some granted retrievals within the instant "
-        "of the grant like a fan-in node that picked another edge, and asks again later). Validity predicates on put instants p_i, offer instants r_i "
+        "of the grant like a fan-in node that picked another edge, and asks again later; the producer may withdraw granted admissions "
+        "the same way). Validity predicates on put instants p_i, offer instants r_i "
         "(first instant in ready_items) and get instants g_i: items are got in entry order; occupancy <= capacity after "
         "every kernel event; p_(i+1) - p_i >= item_length/speed (slot delay), and on a non-accumulating continuous belt the same after "
         "subtracting the time the belt stood still in between (an item waited at the exit); r_i - p_i >= length/speed (capacity*delay); "
